@@ -101,21 +101,19 @@ Qed.
 Definition FullRead (m : rmode) (rerr : err) : Prop :=
   (m = MReadAll /\ (rerr = EEOF \/ rerr = ENil)) \/ (m = MWriteTo /\ rerr = ENil).
 
-(* every scripted 200 answer of the block declares its length *)
-Definition DeclaredOnly (bl : blockin) : Prop :=
-  forall row st body cut, In row (b_script bl) -> In (Resp st None body cut) row -> st <> 200%N.
-
-(* all blocks of the case that share the cache key of bl use bl's locator and declare their lengths *)
+(* all blocks of the case that share the cache key of bl carry bl's size hint, and none takes the empty-block
+   short cut *)
 Definition LocGuard (i : cin) (bl : blockin) : Prop :=
   empty_block_loc (b_loc bl) = false /\
-  forall bl', In bl' (i_blocks i) -> loc_hash (b_loc bl') = loc_hash (b_loc bl) -> b_loc bl' = b_loc bl /\ DeclaredOnly bl'.
+  forall bl', In bl' (i_blocks i) -> loc_hash (b_loc bl') = loc_hash (b_loc bl) ->
+    size_hint (b_loc bl') = size_hint (b_loc bl) /\ empty_block_loc (b_loc bl') = false.
 
 (* a Get that returned a reader: announced size, digest and size of what a successful read delivered *)
 Record GetLocSpec (H : string -> string) (bl : blockin) (m : rmode) (size : nat) (bytes : string) (rerr cerr : err) : Prop := {
   gl_size : forall n, size_hint (b_loc bl) = Some n -> size = n;
   gl_hash : FullRead m rerr -> H bytes = loc_hash (b_loc bl);
-  gl_len : FullRead m rerr -> DeclaredOnly bl -> forall n, size_hint (b_loc bl) = Some n -> slen bytes = n;
-  gl_readfull : forall k, m = MReadFull k -> rerr = ENil -> cerr = ENil -> DeclaredOnly bl ->
+  gl_len : FullRead m rerr -> forall n, size_hint (b_loc bl) = Some n -> slen bytes = n;
+  gl_readfull : forall k, m = MReadFull k -> rerr = ENil -> cerr = ENil ->
                 forall n, size_hint (b_loc bl) = Some n -> k <= n /\ slen bytes = k
 }.
 
@@ -147,13 +145,10 @@ Proof.
     try (destruct X as [[X _]|[_ X]]; discriminate).
 Qed.
 
-Lemma declared_only_iff bl : declared_only bl = true <-> DeclaredOnly bl.
+Lemma hint_eqb_eq a b : hint_eqb a b = true <-> a = b.
 Proof.
-  unfold declared_only, DeclaredOnly. rewrite forallb_forall. split.
-  - intros Hall row st body cut Hr Hin E. specialize (Hall row Hr). rewrite forallb_forall in Hall. specialize (Hall _ Hin).
-    cbn in Hall. subst st. discriminate.
-  - intros Hall row Hr. apply forallb_forall. intros [st [n|] body cut|] Hin; cbn; try reflexivity.
-    apply negb_true_iff. apply N.eqb_neq. eapply Hall; eassumption.
+  destruct a as [x|], b as [y|]; cbn; try (split; [discriminate|intros [=]]); try (split; reflexivity).
+  rewrite Nat.eqb_eq. split; [intros ->; reflexivity|intros [= ->]; reflexivity].
 Qed.
 
 Lemma loc_guard_iff i bl : loc_guard i bl = true <-> LocGuard i bl.
@@ -161,10 +156,10 @@ Proof.
   unfold loc_guard, LocGuard. rewrite andb_true_iff, negb_true_iff, forallb_forall. apply and_iff_compat_l. split.
   - intros Hall bl' Hin Eh. specialize (Hall bl' Hin). rewrite orb_true_iff, negb_true_iff, andb_true_iff in Hall.
     destruct Hall as [X|[A B]]; [apply String.eqb_neq in X; contradiction|].
-    apply String.eqb_eq in A. apply declared_only_iff in B. auto.
+    apply hint_eqb_eq in A. apply negb_true_iff in B. auto.
   - intros Hall bl' Hin. rewrite orb_true_iff, negb_true_iff, andb_true_iff.
     destruct (String.eqb_spec (loc_hash (b_loc bl')) (loc_hash (b_loc bl))) as [E|E]; [right|left; reflexivity].
-    destruct (Hall bl' Hin E) as [A B]. split; [apply String.eqb_eq; exact A|apply declared_only_iff; exact B].
+    destruct (Hall bl' Hin E) as [A B]. split; [apply hint_eqb_eq; exact A|apply negb_true_iff; exact B].
 Qed.
 
 Lemma get_loc_ok_iff H bl m size bytes rerr cerr :
@@ -174,20 +169,17 @@ Proof.
   - intros [[[Hs Hh] Hl] Hd]. constructor.
     + intros n E. rewrite E in Hs. apply Nat.eqb_eq. exact Hs.
     + intros F. apply full_read_iff in F. rewrite F in Hh. cbn [negb orb] in Hh. apply String.eqb_eq. exact Hh.
-    + intros F D n E. apply full_read_iff in F. apply declared_only_iff in D. rewrite F, D, E in Hl. cbn [negb orb andb] in Hl.
-      apply Nat.eqb_eq. exact Hl.
-    + intros k -> -> -> D n E. apply declared_only_iff in D. rewrite D, E in Hd. cbn [negb orb] in Hd.
-      apply andb_true_iff in Hd. rewrite Nat.leb_le, Nat.eqb_eq in Hd. exact Hd.
+    + intros F n E. apply full_read_iff in F. rewrite F, E in Hl. cbn [negb orb] in Hl. apply Nat.eqb_eq. exact Hl.
+    + intros k -> -> -> n E. rewrite E in Hd. apply andb_true_iff in Hd. rewrite Nat.leb_le, Nat.eqb_eq in Hd. exact Hd.
   - intros [Hs Hh Hl Hd]. split; [split; [split|]|].
     + destruct (size_hint (b_loc bl)) as [n|]; [|reflexivity]. apply Nat.eqb_eq. apply Hs. reflexivity.
     + destruct (full_read m rerr) eqn:F; [|reflexivity]. cbn [negb orb]. apply String.eqb_eq. apply Hh. apply full_read_iff. exact F.
-    + destruct (full_read m rerr) eqn:F; [|reflexivity]. destruct (declared_only bl) eqn:D; [|reflexivity]. cbn [negb orb andb].
+    + destruct (full_read m rerr) eqn:F; [|reflexivity]. cbn [negb orb].
       destruct (size_hint (b_loc bl)) as [n|] eqn:E; [|reflexivity]. apply Nat.eqb_eq.
-      apply Hl; [apply full_read_iff; exact F|apply declared_only_iff; exact D|reflexivity].
+      apply Hl; [apply full_read_iff; exact F|reflexivity].
     + destruct m as [|k| |]; try reflexivity. destruct rerr; try reflexivity. destruct cerr; try reflexivity.
-      destruct (declared_only bl) eqn:D; [|reflexivity]. cbn [negb orb].
       destruct (size_hint (b_loc bl)) as [n|] eqn:E; [|reflexivity].
-      destruct (Hd k eq_refl eq_refl eq_refl ltac:(apply declared_only_iff; exact D) n eq_refl) as [A B].
+      destruct (Hd k eq_refl eq_refl eq_refl n eq_refl) as [A B].
       apply andb_true_iff. rewrite Nat.leb_le, Nat.eqb_eq. auto.
 Qed.
 
